@@ -1,5 +1,5 @@
 (* Tac.v — proof tactics shared by all proof files (no definitions of the model). *)
-From Coq Require Import Reals ZArith List Lra.
+From Coq Require Import Reals ZArith List Lra Nsatz.
 From Manif Require Import Scalar Mat Consts Group RInst.
 Import ListNotations.
 Local Open Scope R_scope.
@@ -9,25 +9,36 @@ Ltac mat_unfold :=
   cbv [vnth mnth vmap2 vadd vsub vneg vscale vscale_r vdivs dot sqnorm vzero mzero unitv mid mconst
        mmap2 madd msub mneg mscale mscale_r col mtrans ncols mT mvmul mmul vslice mblock vset mset_rows
        mset_block hcat vcat bdiag colvec flatten skew3 cross3 outer trace
-       nth map seq repeat firstn skipn app length fold_right Nat.eqb Nat.add concat
+       List.nth map seq repeat firstn skipn app length fold_right Nat.eqb Nat.add concat
        kz ksq kabs kgtb kleb kgeb keqb kmin kmax];
   cbn [K RS k0 k1 kadd ksub kmul kdiv kopp kltb klit ksin kcos ksqrt kacos katan2].
 Ltac mat_unfold_in H :=
   cbv [vnth mnth vmap2 vadd vsub vneg vscale vscale_r vdivs dot sqnorm vzero mzero unitv mid mconst
        mmap2 madd msub mneg mscale mscale_r col mtrans ncols mT mvmul mmul vslice mblock vset mset_rows
        mset_block hcat vcat bdiag colvec flatten skew3 cross3 outer trace
-       nth map seq repeat firstn skipn app length fold_right Nat.eqb Nat.add concat
+       List.nth map seq repeat firstn skipn app length fold_right Nat.eqb Nat.add concat
        kz ksq kabs kgtb kleb kgeb keqb kmin kmax] in H;
   cbn [K RS k0 k1 kadd ksub kmul kdiv kopp kltb klit ksin kcos ksqrt kacos katan2] in H.
 
 (* split an equation between concrete lists (of lists) into scalar goals *)
 Ltac list_eq :=
   repeat match goal with
-  | |- @eq (list _) (_ :: _) (_ :: _) => apply f_equal2
+  | |- @eq (list ?A) (_ :: _) (_ :: _) => apply (f_equal2 (@cons A))
   | |- @eq (list _) [] [] => reflexivity
-  end.
+  end;
+  try match goal with |- @eq (K RS) ?a ?b => change (@eq R a b) end.
+
+(* close a polynomial goal, possibly modulo one "norm = 1" hypothesis *)
+Ltac ring1 H := first [ ring | rewrite <- H; ring | lra | nsatz | nra ].
 
 Lemma Rltb_lt_false a b : b <= a -> Rltb a b = false.
 Proof. apply Rltb_false. Qed.
 Lemma Rltb_lt_true a b : a < b -> Rltb a b = true.
 Proof. apply Rltb_true. Qed.
+
+(* the renormalisation test |n2 - 1| > eps is false when n2 = 1 *)
+Lemma renorm_test_unit eps : 0 < eps -> Rltb eps (if Rltb (1 - 1) 0 then - (1 - 1) else 1 - 1) = false.
+Proof.
+  intros He. replace (1 - 1) with 0 by ring.
+  rewrite (Rltb_lt_false 0 0) by lra. apply Rltb_lt_false; lra.
+Qed.
